@@ -3,7 +3,7 @@
    machines, the socket returning between 1 and `count` bytes per sock_recv (list [ks]).
    Specification: rfc4 / rfc5 (proof/SocksProofs.v), an independent reading of the reply
    formats of the SOCKS4 note, RFC 1928 and RFC 1929. *)
-From AV Require Import Base Gen_socks Socks SocksProofs.
+From AV Require Import Base Gen_socks Socks SocksProofs SocksCode SocksCodeProofs.
 
 Theorem C17_tables :
   s4_granted = 90%N /\ s5_atyps = [1; 3; 4]%N /\ s5_version = 5%N /\ s5_auth_version = 1%N.
@@ -47,9 +47,43 @@ Example C17_ex_refusal :
   o_res (handshake c [0; 91; 0; 0; 0; 0; 0; 0]%N []) = Raised Failure.
 Proof. reflexivity. Qed.
 
+(* ---- the state methods as the SOURCE has them: SOCKS4._first_response (inherited by SOCKS4a), SOCKS5._first_response,
+   _auth_response, _connect_response, _connect_response_rest are translated statement by statement on every run
+   (gen/Gen_socks.v); model/SocksCode.v runs the statements on the bytes _read() delivered.  For every configuration and every
+   reply: each method asks _read() for exactly the number of bytes `need` says and decides exactly as `decide` - the
+   function the handshake theorems above are about - says: exception class, message and next state, or completion. ---- *)
+Theorem C17_socks4_first_response_from_source : forall c d,
+  run_reply socks4_first_response_code c d = RAct (decide c S4First d) (Some (need S4First)).
+Proof. exact socks4_first_response_generated. Qed.
+
+Theorem C17_socks5_first_response_from_source : forall c d,
+  run_reply socks5_first_response_code c d = RAct (decide c S5First d) (Some (need S5First)).
+Proof. exact socks5_first_response_generated. Qed.
+
+Theorem C17_socks5_auth_response_from_source : forall c d,
+  run_reply socks5_auth_response_code c d = RAct (decide c S5Auth d) (Some (need S5Auth)).
+Proof. exact socks5_auth_response_generated. Qed.
+
+Theorem C17_socks5_connect_response_from_source : forall c d,
+  run_reply socks5_connect_response_code c d = RAct (decide c S5Conn d) (Some (need S5Conn)).
+Proof. exact socks5_connect_response_generated. Qed.
+
+Theorem C17_socks5_connect_response_rest_from_source : forall c n d,
+  run_rest c n d = RAct (decide c (S5Rest n) d) (Some (need (S5Rest n))).
+Proof. exact socks5_connect_response_rest_generated. Qed.
+
+Theorem C17_socks4a_inherits_first_response : socks4a_inherits_first_response = true.
+Proof. exact reply_known. Qed.
+
 Print Assumptions C17_tables.
 Print Assumptions C17_segmentation_independent.
 Print Assumptions C17_exact_reads.
 Print Assumptions C17_total.
 Print Assumptions C17_socks4_outcome.
 Print Assumptions C17_socks5_outcome.
+Print Assumptions C17_socks4_first_response_from_source.
+Print Assumptions C17_socks5_first_response_from_source.
+Print Assumptions C17_socks5_auth_response_from_source.
+Print Assumptions C17_socks5_connect_response_from_source.
+Print Assumptions C17_socks5_connect_response_rest_from_source.
+Print Assumptions C17_socks4a_inherits_first_response.
